@@ -34,6 +34,27 @@ CHECKS = {
              "must raise IntegerError.",
         note="trusts the 60-line shift/mask reference in mc/props/c10.py; region totals are multiples of 8 (documented requirement)",
         design="§3 C10"),
+    "C13": dict(
+        technique="bounded-exhaustive enumeration of validator/mapping instances x whole one-byte domains x label spellings; exhaustive wrapper compositions around Error with an execution-probe differential oracle",
+        text="Const, OneOf, NoneOf, Check, ExprValidator, Enum, FlagsEnum and Mapping instances are run on every value of their "
+             "one-byte domain (two-byte domains: boundary set quick, all 65536 thorough) in both directions and with every label "
+             "spelling; accept/reject must equal the predicate, accepted values and bytes must be unchanged, error classes are "
+             "checked. For Error, every composition of 30 wrappers up to depth 2 (quick) / 3 (thorough) is run twice - once with a "
+             "probe that records whether the field in Error's position is executed, once with Error - and ExplicitError must escape "
+             "exactly when the probe is reached, for parsing and building.",
+        note="predicates/tables in mc/props/c13.py are the specification; values equal under == to a Const count as the constant; "
+             "Peek does not build (documented)",
+        design="§3 C13"),
+    "C15": dict(
+        technique="bounded-exhaustive enumeration of transform parameters x data, big-integer/stdlib reference transforms",
+        text="ProcessXor with all 256 integer and one-byte keys, key strings of every length 1..80 in several patterns and "
+             "context-supplied keys; ProcessRotateLeft with every amount -64..64 (+over-wide extras) x every group 1..8 incl. "
+             "non-multiple lengths; ByteSwapped/BitsSwapped over sizes 1..16 and the streaming path; Compressed x zlib/gzip/bzip2/"
+             "lzma x levels. For every (parameter, data) pair: build emits T(inner bytes), the inner construct sees T^-1(stream), "
+             "parse(build(v)) == v, invalid lengths/keys raise the documented error.",
+        note="reference transforms (cycling xor, rotl on int.from_bytes, reversed slices, bit reversal) live in mc/props/c15.py; "
+             "stdlib codecs define compression; gzip byte equality not demanded (timestamp)",
+        design="§3 C15"),
 }
 
 PENDING_REASON = "check not built yet in this round (see DESIGN.md §7 build order); it will be decided by the same bounded-exhaustive engine"
